@@ -469,6 +469,16 @@ def gen_event_case(rng, nsteps, bias=None):
             lines.append("run")
         else:
             recs = []
+            if rng.chance(1, 4):
+                # one read() batch of mixed kinds for the same watch: create/delete/move next to modify/attrib
+                wd = rng.range(1, 3)
+                ks = [rng.choice([0x100, 0x200, 0x80, 0x40, 0x800, 0x400]), rng.choice([2, 4, 6])]
+                if rng.chance(1, 2):
+                    ks.reverse()
+                if rng.chance(1, 2):
+                    ks.append(rng.choice(MASKS))
+                lines.append("dispatch " + " ".join(f"{wd}:{m}:{rng.choice(['-', 'n1', 'n2'])}" for m in ks))
+                continue
             for i in range(rng.range(1, 4)):
                 if i and rng.chance(1, 4):
                     recs.append("/")
@@ -578,11 +588,19 @@ def monitor_event1(case, rc, out, err, use_optional):
                 if h in (st["pending"] | st["optional"]) - st["delivered"] and watch[h] == wd and h not in st["stopped"]:
                     need = (2 if mask & CHANGE_BITS else 0) | (1 if mask & RENAME_BITS else 0)
                     okname = (name == rname) if rname != "-" else (name in aliases.get(wd, set()))
-                    if okname and (evs & need) == need and evs in (1, 2, 3):
+                    # per record, independent of its predecessors: UV_CHANGE iff an ATTRIB/MODIFY bit; UV_RENAME
+                    # required for create/delete/move bits, allowed for any other bit (interpretation (v):
+                    # IN_ISDIR etc.), forbidden when the mask has ATTRIB/MODIFY bits only
+                    other = (mask & 0xFFFFFFFF) & ~CHANGE_BITS
+                    okev = ((evs & 2) != 0) == ((mask & CHANGE_BITS) != 0) and (evs & need) == need \
+                        and (other != 0 or (evs & 1) == 0) and evs in (1, 2, 3)
+                    if okname and okev:
                         st["delivered"].add(h)
                         break
                     if okname:
-                        raise Bad("fsevent-wrong-events", f"line {ln}: `{l}` for mask {mask:#x}: needs bits {need}")
+                        raise Bad("fsevent-wrong-events", f"line {ln}: `{l}` for this record's mask {mask:#x}: UV_CHANGE "
+                                  f"{'required' if mask & CHANGE_BITS else 'forbidden'}, UV_RENAME "
+                                  f"{'required' if mask & RENAME_BITS else ('allowed' if other else 'forbidden')}")
                 next_record(ln)
             continue
         if w[0] == "dispatched":
@@ -698,7 +716,18 @@ def gen_real_case(rng, nsteps):
         else:
             k = rng.below(10)
             live = sorted(files)
-            if k < 4 and live:
+            if k < 4 and live and rng.chance(1, 3):
+                # two changes of different kinds queued before the loop reads the inotify fd (one read batch)
+                extra += 1
+                name = f"{rng.choice(['', 'd1/'])}n{extra}"
+                pair = [f"create {name}", f"{rng.choice(['write', 'chmod'])} {rng.choice(live)}"]
+                files.add(name)
+                if rng.chance(1, 2):
+                    pair.reverse()
+                if rng.chance(1, 2):
+                    pair.append(f"write {name}")
+                lines += pair + ["settle"]
+            elif k < 4 and live:
                 lines += [f"{rng.choice(['write', 'chmod'])} {rng.choice(live)}", "settle"]
             elif k < 6:
                 extra += 1
@@ -767,8 +796,10 @@ def monitor_real(case, rc, out, err):
     orphan = set()
     stopped_since = set()
     last_op = None
-    owed = []            # (h, name, needbits, text) since the last fs op
+    owed = []            # (h, name, needbits, text) since the last settle
     got = []             # (h, name, ev)
+    kinds = {}           # reported name -> classes of the changes since the last settle (None = unconstrained)
+    dirs = {"d1"}
 
     def dname(p):
         return p.rsplit("/", 1)[0] if "/" in p else "."
@@ -786,7 +817,15 @@ def monitor_real(case, rc, out, err):
                     if not any(gh == h and gn == name and (ge & need) == need for gh, gn, ge in got):
                         raise Bad("fsevent-real-lost-event", f"line {ln}: `{text}` not reported to watching handle h{h} "
                                                              f"as name={name} with event bits {need}; it got {[g for g in got if g[0] == h]}")
-                owed, got = [], []
+                # every callback's class, per reported name: content/attribute changes of a regular file are
+                # UV_CHANGE only, create/delete/move are UV_RENAME only, whatever else happened in the batch
+                for gh, gn, ge in got:
+                    ks = kinds.get(gn)
+                    if ks and len(ks) == 1 and None not in ks and ge != next(iter(ks)):
+                        raise Bad("fsevent-real-wrong-events", f"line {ln}: h{gh} got name={gn} ev={ge}; the only changes of "
+                                  f"{gn} since the last settle are of class {next(iter(ks))} (2=UV_CHANGE, 1=UV_RENAME)")
+                owed, got, kinds = [], [], {}
+                stopped_since = set()
             continue
         if w[0] == "op":
             last_op = w[1:]
@@ -800,12 +839,16 @@ def monitor_real(case, rc, out, err):
                 orphan.discard(int(last_op[1]))
             continue
         if w[0] == "fsop":
-            stopped_since = set()
-            owed, got = [], []
             if w[1] != "0":
                 continue
             op, p = last_op[0], last_op[1]
             cls = 2 if op in ("write", "chmod") else 1
+            if op == "mkdir" or (op == "rename" and p in dirs):
+                dirs.add(p if op == "mkdir" else last_op[2])
+            for q in [p] + ([last_op[2]] if op == "rename" else []):
+                k = kinds.setdefault(base(q), set())
+                # directories carry IN_ISDIR (interpretation (v)); unlink of a watched file also changes its attributes
+                k.add(None if (q in dirs or op in ("unlink", "rmdir")) else cls)
             for h in range(NH):
                 if watch[h] is None or h in orphan:
                     continue
